@@ -59,8 +59,8 @@ def rule_span(cx, tier):
     total_pop = sum(i[2] for i in insts)
     r.analysed = {"functions_with_span_ops": len(insts), "push_span_sites": total_push, "pop_span_sites": total_pop,
                   "raw_span_stack_ops": sum(i[3] for i in insts)}
-    r.floor("functions using push_span", len([i for i in insts if i[1]]), 8)
-    r.floor("push_span call sites", total_push, 10)
+    r.floor("functions using push_span", len([i for i in insts if i[1]]), 6)
+    r.floor("push_span call sites", total_push, 7)
     for fn, n_push, n_pop, n_other in insts:
         r.instances += 1
         r.nontrivial += 1
@@ -174,7 +174,7 @@ def rule_jump_checked(cx, tier):
                 if aty == "u16":
                     sinks.append((fn, c))
     r.analysed = {"u16_to_le_bytes_sites": len(sinks)}
-    r.floor("u16::to_le_bytes sites in the compiler", len(sinks), 2)
+    r.floor("u16::to_le_bytes sites in the compiler", len(sinks), 1)
     for fn, c in sinks:
         r.instances += 1
         r.nontrivial += 1
@@ -566,8 +566,8 @@ def rule_builder_bal(cx, tier):
             insts.append((fn, ev))
             n_sites += len(ev)
     r.analysed = {"functions_emitting_builder_ops": len(insts), "builder_op_sites": n_sites}
-    r.floor("functions emitting builder / try ops", len(insts), 4)
-    r.floor("builder / try op emission sites", n_sites, 11)
+    r.floor("functions emitting builder / try ops", len(insts), 3)
+    r.floor("builder / try op emission sites", n_sites, 8)
     for fn, ev in insts:
         r.instances += 1
         r.nontrivial += 1
@@ -950,7 +950,7 @@ def rule_force_export(cx, tier):
     fns = {f.qual: f for f in compiler_methods(cx)}
     require(COMP + "force_export_assignment" in fns, "R-FORCE-EXPORT: Compiler::force_export_assignment not found")
     sites = [(f, c) for f in fns.values() for c in f.calls() if c.short == EXPORT]
-    r.floor("compile_value_export call sites", len(sites), 7)
+    r.floor("compile_value_export call sites", len(sites), 5)
 
     def gating_params(fn, bb):
         """bool parameters whose false outcome cuts bb off (under force = true)"""
@@ -1039,4 +1039,50 @@ def rule_force_export(cx, tier):
         else:
             r.sample({"fn": name, "line": line_of(fn, c.bb), "verdict": "every caller passes a forced-true flag"})
     r.analysed = {"export_sites": len(sites), "functions": sorted({f.qual.rsplit('::', 1)[-1] for f, _ in sites})}
+    return r
+
+
+# ---------------------------------------------------------------------------------------------
+# R-CATCH-LAST (C04): a conditional last catch block rethrows what it does not accept
+
+def rule_catch_last(cx, tier):
+    r = RuleResult("R-CATCH-LAST",
+                   "a catch argument that may not match (a type hint: `compile_check_type`; a map pattern: "
+                   "`try_unpack_map`) files a jump for the mismatch. In `compile_try_expression` every such filing either "
+                   "lies on the `!is_last_catch` outcome (a conditional last catch is refused), or the catch loop emits a "
+                   "`Throw` that is reachable from it: after the last catch block nothing else would look at the error, "
+                   "so a mismatch that merely falls through swallows the error")
+    from .enc import Writer
+    from .narrow import _switch_outcomes
+    fn = cx.need_fn(COMP + "compile_try_expression")
+    cfg = cx.cfg(fn)
+    du = cx.du(fn)
+    w = Writer(cx)
+    filings = [c for c in fn.calls() if c.short in (COMP + "compile_check_type", COMP + "try_unpack_map")]
+    r.floor("mismatch-jump filings in compile_try_expression", len(filings), 3)
+    throws = [c for c in fn.calls() if c.short in (COMP + "push_op", COMP + "push_op_without_span") and len(c.args) > 1
+              and w.op_variants(fn, c.args[1]) == {"Throw"}]
+    loops = [cfg.natural_loop(t, h) for (t, h) in cfg.back_edges()]
+    # tests of `is_last_catch`
+    last_tests = []
+    for b in fn.blocks:
+        for (l, te, fe) in _switch_outcomes(cx, fn, b) or []:
+            if fn.local_name(l) == "is_last_catch":
+                last_tests.append((b.idx, te, fe))
+    require(last_tests, "R-CATCH-LAST: no test of `is_last_catch` found in compile_try_expression")
+    for c in filings:
+        r.instances += 1
+        r.nontrivial += 1
+        not_last = any(any((e == c.bb or cfg.dominates(e, c.bb)) and set(cfg.pred[e]) <= {sb} for e in fe)
+                       for (sb, te, fe) in last_tests)
+        loop = max((l for l in loops if c.bb in l), key=len, default=set())
+        rethrown = any(t.bb in loop and t.bb in cfg.reachable_after(c.bb) for t in throws)
+        name = c.short[len(COMP):]
+        r.sample({"filing": name, "line": c.line, "only_when_not_last": not_last, "rethrow_in_loop": rethrown})
+        if not (not_last or rethrown):
+            r.add(Finding("R-CATCH-LAST", fn.qual, f"{name}:last-catch-falls-through",
+                          f"{name} files mismatch jumps for a catch argument also when the catch block is the last one, and "
+                          f"no `Throw` follows in the catch loop: a value the last catch does not accept is dropped, the "
+                          f"try expression yields null and no enclosing `try` sees the error", fn.file, c.line))
+    r.analysed = {"filings": len(filings), "throw_emissions": len(throws)}
     return r
